@@ -1,6 +1,201 @@
-(* C18 — proofs about the drift lookup (model: Recon/Drift.v). *)
-From Coq Require Import Floats.
-From AG Require Import Base.Prelude Base.Res Base.Bytes Recon.Drift Gen.Drift.
+(* C18 — proofs about the drift lookup (model: Recon/Drift.v, real instance: Recon/DriftR.v):
+   the laws of Flocq's binary64 rounding used by the abstract section of Recon/DriftR_proofs.v,
+   the bridge from the computed (dyadic) table checks to the real-number table predicate,
+   the facts about the tables of the current source (by vm_compute, re-proved on every run),
+   and the lemmas pinned in Props/C18.v. *)
+From Coq Require Import Reals Lra.
+From Flocq Require Import Core Plus_error.
+From AG Require Import Base.Prelude Base.Res Base.Bytes Recon.Drift Recon.DriftR Recon.DriftR_proofs Gen.Drift.
 
-Lemma tables_okb_current_lemma : tables_okb drift_tables = true.
+Local Open Scope R_scope.
+
+(* ---------- Flocq's round-to-nearest-even on binary64 satisfies the laws of Section Rounded ---------- *)
+Local Instance prec53 : Prec_gt_0 53. Proof. unfold Prec_gt_0. lia. Qed.
+Local Instance valid64 : Valid_exp fexp64 := FLT_exp_valid (-1074) 53.
+Local Instance mono64 : Monotone_exp fexp64 := FLT_exp_monotone (-1074) 53.
+
+Lemma rnd64_mono x y : x <= y -> rnd64 x <= rnd64 y.
+Proof. intros H. apply round_le; [exact valid64|apply valid_rnd_N|exact H]. Qed.
+Lemma rnd64_id x : fmt64 x -> rnd64 x = x.
+Proof. intros H. apply round_generic; [apply valid_rnd_N|exact H]. Qed.
+Lemma rnd64_fmt x : fmt64 (rnd64 x).
+Proof. apply generic_format_round; [exact valid64|apply valid_rnd_N]. Qed.
+Lemma fmt64_0 : fmt64 0.
+Proof. apply generic_format_0. Qed.
+Lemma fmt64_1 : fmt64 1.
+Proof.
+  change 1 with (bpow radix2 0). apply generic_format_bpow. unfold fexp64, FLT_exp. lia.
+Qed.
+Lemma rnd64_sub_pos x y : fmt64 x -> fmt64 y -> x < y -> 0 < rnd64 (y - x).
+Proof.
+  intros Fx Fy Hxy.
+  assert (0 <= rnd64 (y - x)) as H0.
+  { apply round_ge_generic; [exact valid64|apply valid_rnd_N|exact fmt64_0|lra]. }
+  assert (rnd64 (y + - x) <> 0) as H1.
+  { apply (round_plus_neq_0 radix2 fexp64 ZnearestE); [exact Fy|apply generic_format_opp; exact Fx|lra]. }
+  unfold Rminus in *. lra.
+Qed.
+
+Ltac laws := first [exact rnd64_mono | exact rnd64_id | exact rnd64_fmt | exact fmt64_0 | exact fmt64_1 | exact rnd64_sub_pos].
+
+(* ---------- dyadic arithmetic is exact ---------- *)
+Lemma dyR_eq m e : dyR (m, e) = IZR m * bpow radix2 e.
+Proof. reflexivity. Qed.
+
+Lemma pow2_bpow k : (0 <= k)%Z -> IZR (2 ^ k) = bpow radix2 k.
+Proof. intros H. rewrite <- (IZR_Zpower radix2 k H). reflexivity. Qed.
+
+Lemma dy_sub_R a b : dyR (dy_sub a b) = dyR a - dyR b.
+Proof.
+  destruct a as [m1 e1], b as [m2 e2]. unfold dy_sub. set (e := Z.min e1 e2).
+  rewrite !dyR_eq, minus_IZR, !mult_IZR, !pow2_bpow by lia.
+  replace (bpow radix2 e1) with (bpow radix2 (e1 - e) * bpow radix2 e) by (rewrite <- bpow_plus; f_equal; lia).
+  replace (bpow radix2 e2) with (bpow radix2 (e2 - e) * bpow radix2 e) by (rewrite <- bpow_plus; f_equal; lia).
+  ring.
+Qed.
+
+Lemma dy_leb_R a b : dy_leb a b = true -> dyR a <= dyR b.
+Proof.
+  unfold dy_leb, dy_sgn. intros H. pose proof (dy_sub_R a b) as E.
+  destruct (dy_sub a b) as [m e]. cbn [fst] in H. rewrite dyR_eq in E.
+  assert (m <= 0)%Z as Hm by (destruct m; cbn in H; lia).
+  apply IZR_le in Hm. pose proof (bpow_gt_0 radix2 e). nra.
+Qed.
+Lemma dy_ltb_R a b : dy_ltb a b = true -> dyR a < dyR b.
+Proof.
+  unfold dy_ltb, dy_sgn. intros H. pose proof (dy_sub_R a b) as E.
+  destruct (dy_sub a b) as [m e]. cbn [fst] in H. rewrite dyR_eq in E.
+  assert (m < 0)%Z as Hm by (destruct m; cbn in H; lia).
+  apply IZR_lt in Hm. pose proof (bpow_gt_0 radix2 e). nra.
+Qed.
+Lemma dy_eqb_R a b : dy_eqb a b = true -> dyR a = dyR b.
+Proof.
+  unfold dy_eqb, dy_sgn. intros H. pose proof (dy_sub_R a b) as E.
+  destruct (dy_sub a b) as [m e]. cbn [fst] in H. rewrite dyR_eq in E.
+  assert (m = 0)%Z as Hm by (destruct m; cbn in H; lia). subst m. lra.
+Qed.
+
+Lemma dy_fmt_R a : dy_fmt a = true -> fmt64 (dyR a).
+Proof.
+  destruct a as [m e]. unfold dy_fmt. intros H. apply andb_true_iff in H. destruct H as [He Hm].
+  apply generic_format_FLT. exists (Float radix2 m e); [reflexivity| |]; cbn [Fnum Fexp].
+  - change (Zpower radix2 53) with (2 ^ 53)%Z. lia.
+  - lia.
+Qed.
+
+Lemma dy_scale m e :
+  dyR (m, e) = IZR (m * 2 ^ Z.max 0 e) * / IZR (2 ^ Z.max 0 (- e)) /\ 0 < IZR (2 ^ Z.max 0 (- e)).
+Proof.
+  rewrite dyR_eq, mult_IZR, !pow2_bpow by lia. split; [|apply bpow_gt_0].
+  rewrite <- bpow_opp, Rmult_assoc, <- bpow_plus. do 2 f_equal. lia.
+Qed.
+
+Lemma scale_lt x B Q p : 0 < B -> 0 < Q -> (x * / B < p / Q <-> x * Q < p * B).
+Proof.
+  intros HB HQ. assert (0 < / (B * Q)) by (apply Rinv_0_lt_compat; nra).
+  replace (x * / B) with ((x * Q) * / (B * Q)) by (field; lra).
+  replace (p / Q) with ((p * B) * / (B * Q)) by (field; lra).
+  split; intros H'; [|apply Rmult_lt_compat_r; assumption].
+  apply (Rmult_lt_reg_r (/ (B * Q))); assumption.
+Qed.
+Lemma scale_le x B Q p : 0 < B -> 0 < Q -> (x * / B <= p / Q <-> x * Q <= p * B).
+Proof.
+  intros HB HQ. assert (0 < / (B * Q)) by (apply Rinv_0_lt_compat; nra).
+  replace (x * / B) with ((x * Q) * / (B * Q)) by (field; lra).
+  replace (p / Q) with ((p * B) * / (B * Q)) by (field; lra).
+  split; intros H'; [|apply Rmult_le_compat_r; [lra|assumption]].
+  apply (Rmult_le_reg_r (/ (B * Q))); assumption.
+Qed.
+
+Lemma dy_lt_q_R a p q : dy_lt_q a p q = true <-> dyR a < IZR p / IZR (Z.pos q).
+Proof.
+  destruct a as [m e]. unfold dy_lt_q. destruct (dy_scale m e) as [-> HB].
+  assert (0 < IZR (Z.pos q)) as HQ by (apply IZR_lt; lia).
+  rewrite scale_lt by assumption. rewrite <- !mult_IZR. rewrite Z.ltb_lt.
+  split; [apply IZR_lt|apply lt_IZR].
+Qed.
+Lemma dy_le_q_R a p q : dy_le_q a p q = true <-> dyR a <= IZR p / IZR (Z.pos q).
+Proof.
+  destruct a as [m e]. unfold dy_le_q. destruct (dy_scale m e) as [-> HB].
+  assert (0 < IZR (Z.pos q)) as HQ by (apply IZR_lt; lia).
+  rewrite scale_le by assumption. rewrite <- !mult_IZR. rewrite Z.leb_le.
+  split; [apply IZR_le|apply le_IZR].
+Qed.
+Lemma dy_lt_q_false a p q : dy_lt_q a p q = false -> IZR p / IZR (Z.pos q) <= dyR a.
+Proof.
+  intros H. apply Rnot_lt_le. intros H'. apply dy_lt_q_R in H'. congruence.
+Qed.
+
+(* ---------- from the computed checks to the table predicate over R ---------- *)
+Lemma adj_adjP {X Y} (p : X -> X -> bool) (P : Y -> Y -> Prop) (f : X -> Y) l :
+  (forall a b, p a b = true -> P (f a) (f b)) -> adj p l = true -> adjP P (map f l).
+Proof.
+  intros H. induction l as [|a l IH]; [intros; exact I|].
+  destruct l as [|b l']; [intros; exact I|].
+  intros E. change (adj p (a :: b :: l')) with (p a b && adj p (b :: l')) in E.
+  apply andb_true_iff in E. destruct E as [E1 E2]. split; [apply H, E1|apply IH, E2].
+Qed.
+
+Lemma dknotR_time k : rk_time (dknotR k) = dyR (dk_time k). Proof. reflexivity. Qed.
+Lemma dknotR_radius k : rk_radius (dknotR k) = dyR (dk_radius k). Proof. reflexivity. Qed.
+Lemma dknotR_corr k : rk_corr (dknotR k) = dyR (dk_corr k). Proof. reflexivity. Qed.
+
+Lemma dstep_ok_R a b : dstep_ok a b = true -> step_ok fmt64 (dknotR a) (dknotR b).
+Proof.
+  unfold dstep_ok. rewrite !andb_true_iff. intros ((((H1 & H2) & H3) & H4) & H5).
+  unfold step_ok. rewrite !dknotR_time, !dknotR_radius, !dknotR_corr, <- !dy_sub_R.
+  repeat split; auto using dy_ltb_R, dy_leb_R, dy_fmt_R.
+Qed.
+
+Lemma dknot_fmt_R k : dknot_fmt k = true -> knot_fmt fmt64 (dknotR k).
+Proof.
+  unfold dknot_fmt. rewrite !andb_true_iff. intros ((H1 & H2) & H3).
+  unfold knot_fmt. rewrite dknotR_time, dknotR_radius, dknotR_corr. auto using dy_fmt_R.
+Qed.
+
+Lemma dtable_okb_R t : dtable_okb t = true -> table_ok fmt64 (map dknotR t).
+Proof.
+  unfold dtable_okb. destruct t as [|k0 [|k1 t']]; try discriminate.
+  rewrite !andb_true_iff. intros ((H1 & H2) & H3). unfold table_ok. split; [cbn [map length]; lia|]. split; [|split].
+  - cbn [map hd]. rewrite dknotR_corr. rewrite (dy_eqb_R _ _ H1). rewrite dyR_eq. cbn [IZR]. lra.
+  - rewrite forallb_forall in H2. apply Forall_forall. intros k Hk. apply in_map_iff in Hk.
+    destruct Hk as (k' & <- & Hk'). apply dknot_fmt_R, H2, Hk'.
+  - eapply adj_adjP; [|exact H3]. exact dstep_ok_R.
+Qed.
+
+Lemma dtables_okb_R d : dtables_okb d = true -> tables_ok fmt64 (dtablesR d).
+Proof.
+  unfold dtables_okb. destruct d as [|s0 d']; [discriminate|]. set (d := s0 :: d').
+  rewrite andb_true_iff. intros (H1 & H2). unfold tables_ok. split; [discriminate|]. split.
+  - rewrite forallb_forall in H1. apply Forall_forall. intros s Hs. unfold dtablesR in Hs. apply in_map_iff in Hs.
+    destruct Hs as (s' & <- & Hs'). cbn [fst]. apply dtable_okb_R. specialize (H1 _ Hs').
+    apply andb_true_iff in H1. apply H1.
+  - unfold dtablesR. eapply adj_adjP; [|exact H2]. intros a b H. cbn [snd]. apply dy_ltb_R, H.
+Qed.
+
+(* ---------- the tables of the current source ---------- *)
+Lemma current_checks_true : current_checks = true.
 Proof. vm_compute. reflexivity. Qed.
+
+(* no tactic may try to convert two different closed terms over the 145 000-entry table: only vm_compute
+   (which ignores opacity) evaluates it *)
+Opaque drift_tables.
+Lemma current_checks_split :
+  tables_okb drift_tables = true /\ steps_okb d_tables = true /\ witness_okb d_tables = true.
+Proof.
+  pose proof current_checks_true as H. unfold current_checks in H.
+  apply andb_true_iff in H. destruct H as [H H3]. apply andb_true_iff in H. destruct H as [H1 H2].
+  split; [exact H1|split; [exact H2|exact H3]].
+Qed.
+Lemma tables_okb_current_lemma : tables_okb drift_tables = true.
+Proof. exact (proj1 current_checks_split). Qed.
+Lemma steps_okb_current : steps_okb d_tables = true.
+Proof. exact (proj1 (proj2 current_checks_split)). Qed.
+Lemma witness_okb_current : witness_okb d_tables = true.
+Proof. exact (proj2 (proj2 current_checks_split)). Qed.
+
+Lemma table_ok_current_lemma : tables_ok fmt64 r_tables.
+Proof.
+  apply dtables_okb_R. pose proof tables_okb_current_lemma as H. unfold tables_okb in H.
+  unfold d_tables. revert H. destruct (dy_tables drift_tables); intros H; [exact H|discriminate H].
+Qed.
